@@ -108,13 +108,17 @@ def concretise(members, root, rng, rich=False, limit=SMALL_LIMIT, tok0=1):
     out, canaries = [], []
     nid = [tok0]
 
+    mine = []
+
     def ids(n):
         r = list(range(nid[0], nid[0] + n))
         nid[0] += n
+        mine.extend(r)
         return r
     for j, m in enumerate(members, start=1):
         kind, nc = m["kind"], m["nc"]
-        c = {"kind": kind, "nc": nc, "tar": None, "link": ""}
+        mine = []
+        c = {"kind": kind, "nc": nc, "tar": None, "link": "", "toks": mine}
         hostile = nc not in ("plain", "nested", "unicode")
         ext = rng.choice(TEXT_FMTS if (hostile or not rich) else RICH_FMTS)
         if kind == "doc":
@@ -145,10 +149,10 @@ def concretise(members, root, rng, rich=False, limit=SMALL_LIMIT, tok0=1):
             ext = "txt"
             head = (" ".join(tok(i) for i in ids(2)) + "\n").encode()
             c["data"] = head + b"a" * (limit + 1 - len(head))
-        elif kind in ("symlink", "hardlink", "chardev", "fifo"):
-            ext = "txt"
+        elif kind in ("symlink", "hardlink", "chardev", "fifo", "linkPrev", "symPrev"):
+            ext = rng.choice(TEXT_FMTS) if kind in ("linkPrev", "symPrev") else "txt"   # a supported extension
             c["data"] = b""
-            c["tar"] = kind
+            c["tar"] = {"linkPrev": "hardlink", "symPrev": "symlink"}.get(kind, kind)
         else:
             raise ValueError(kind)
         name = _name_for(nc, j, ext, root, rng, canaries)
@@ -160,7 +164,9 @@ def concretise(members, root, rng, rich=False, limit=SMALL_LIMIT, tok0=1):
         elif kind == "fork":
             d, _, b = name.rpartition("/")
             name = "__MACOSX/" + (d + "/" if d else "") + rng.choice(["", "._"]) + b
-        if kind in ("symlink", "hardlink"):
+        if kind in ("linkPrev", "symPrev") and out:
+            c["link"] = out[-1]["name"]                  # the member stored just before this one
+        elif kind in ("symlink", "hardlink", "linkPrev", "symPrev"):
             p = os.path.join(root, "host", f"linktarget{j}.txt")
             canaries.append((p, f"{CANARY}{j}lnk{rng.randrange(1000, 9999)}x"))
             c["link"] = p
@@ -198,11 +204,31 @@ def _zip_patch(data: bytes, index: int, what: str) -> bytes:
     return bytes(b)
 
 
-def build_zip(members, method="deflated", corrupt=None) -> bytes:
+def pack_params(fmt, comp, rng):
+    """Packer parameters that change the container header / framing, chosen per archive (seeded).
+    ZIP: deflate level.  TAR: header format (USTAR / GNU / PAX), bz2 block size (BZh1..BZh9), gzip level +
+    header fields (mtime, FNAME, FCOMMENT, FEXTRA), xz preset + integrity check type."""
+    if fmt == "zip":
+        return {"level": rng.choice([1, 6, 9])}
+    if fmt == "tar":
+        p = {"tarfmt": rng.choice(["ustar", "gnu", "pax"])}
+        if comp == "bz2":
+            p["level"] = rng.choice([1, 5, 9])
+        elif comp == "gz":
+            p.update(level=rng.choice([1, 6, 9]), gzmtime=rng.choice([0, 1700000000]),
+                     gzname=rng.choice(["", "A.tar", "données.tar"]), gzextra=rng.choice([0, 0, 1]))
+        elif comp == "xz":
+            p.update(level=rng.choice([0, 3, 6]), xzcheck=rng.choice(["crc32", "crc64", "sha256", "none"]))
+        return p
+    return {}
+
+
+def build_zip(members, method="deflated", corrupt=None, params=None) -> bytes:
     """corrupt: None | (member index, "flip" | "crc" | "method")."""
+    params = params or {}
     buf = io.BytesIO()
     comp = zipfile.ZIP_STORED if method == "stored" else zipfile.ZIP_DEFLATED
-    with zipfile.ZipFile(buf, "w", comp) as zf:
+    with zipfile.ZipFile(buf, "w", comp, compresslevel=params.get("level") if comp == zipfile.ZIP_DEFLATED else None) as zf:
         for m in members:
             name = m["name"] + ("/" if m["kind"] == "dir" else "")
             zi = zipfile.ZipInfo(name, date_time=(2024, 1, 2, 3, 4, 6))
@@ -215,13 +241,29 @@ def build_zip(members, method="deflated", corrupt=None) -> bytes:
     return data
 
 
-def build_tar(members, comp="", corrupt=None, fmt=tarfile.PAX_FORMAT) -> bytes:
-    """comp: "" | gz | bz2 | xz.  corrupt: None | (member index, "flip") (plain tar only)."""
+def _gzip_container(raw: bytes, level, mtime, name, extra) -> bytes:
+    """RFC 1952 member written by hand so that every optional header field can be set."""
+    import zlib
+    flg = (8 if name else 0) | (4 if extra else 0) | (16 if extra else 0)
+    out = bytearray(b"\x1f\x8b\x08" + bytes([flg]) + struct.pack("<I", mtime) + (b"\x02" if level == 9 else b"\x04" if level == 1 else b"\x00")
+                    + b"\x03")
+    if extra:
+        out += struct.pack("<H", 6) + b"AB" + struct.pack("<H", 2) + b"xy"      # FEXTRA: one subfield
+    if name:
+        out += name.encode("latin-1", "replace") + b"\x00"                      # FNAME
+    if extra:
+        out += b"packed by the C10 harness\x00"                                 # FCOMMENT
+    co = zlib.compressobj(level, zlib.DEFLATED, -15)
+    out += co.compress(raw) + co.flush()
+    out += struct.pack("<II", zlib.crc32(raw) & 0xFFFFFFFF, len(raw) & 0xFFFFFFFF)
+    return bytes(out)
+
+
+def _write_plain_tar(members, fmt) -> bytes:
     buf = io.BytesIO()
-    offs = {}
-    with tarfile.open(fileobj=buf, mode="w:" + comp if comp else "w", format=fmt) as tf:
+    with tarfile.open(fileobj=buf, mode="w", format=fmt) as tf:
         for i, m in enumerate(members):
-            ti = tarfile.TarInfo(m["name"] if m["kind"] != "dir" else m["name"])
+            ti = tarfile.TarInfo(m["name"])
             ti.mtime = 1700000000
             t = m.get("tar")
             if m["kind"] == "dir":
@@ -243,7 +285,21 @@ def build_tar(members, comp="", corrupt=None, fmt=tarfile.PAX_FORMAT) -> bytes:
             else:
                 ti.size = len(m["data"])
                 tf.addfile(ti, io.BytesIO(m["data"]))
-    data = buf.getvalue()
+    return buf.getvalue()
+
+
+def build_tar(members, comp="", corrupt=None, fmt=None, params=None) -> bytes:
+    """comp: "" | gz | bz2 | xz.  corrupt: None | (member index, "flip") (plain tar only).
+    The tar stream is written first, then put into the compression container with the given parameters."""
+    import bz2
+    import lzma
+    params = params or {}
+    tfmt = fmt if fmt is not None else {"ustar": tarfile.USTAR_FORMAT, "gnu": tarfile.GNU_FORMAT,
+                                        "pax": tarfile.PAX_FORMAT}[params.get("tarfmt", "pax")]
+    try:
+        data = _write_plain_tar(members, tfmt)
+    except ValueError:                       # USTAR cannot store this name / link name: use PAX
+        data = _write_plain_tar(members, tarfile.PAX_FORMAT)
     if corrupt:
         assert comp == "" and corrupt[1] == "flip"
         with tarfile.open(fileobj=io.BytesIO(data), mode="r:") as rd:      # payload offsets as a reader sees them
@@ -252,6 +308,17 @@ def build_tar(members, comp="", corrupt=None, fmt=tarfile.PAX_FORMAT) -> bytes:
         b = bytearray(data)
         b[offs[corrupt[0]] + len(members[corrupt[0]]["data"]) // 2] ^= 0x5A
         data = bytes(b)
+    if comp == "gz":
+        data = _gzip_container(data, params.get("level", 6), params.get("gzmtime", 0), params.get("gzname", ""),
+                               params.get("gzextra", 0))
+    elif comp == "bz2":
+        data = bz2.compress(data, params.get("level", 9))
+    elif comp == "xz":
+        chk = {"crc32": lzma.CHECK_CRC32, "crc64": lzma.CHECK_CRC64, "sha256": lzma.CHECK_SHA256,
+               "none": lzma.CHECK_NONE}[params.get("xzcheck", "crc64")]
+        if not lzma.is_check_supported(chk):
+            chk = lzma.CHECK_CRC64
+        data = lzma.compress(data, format=lzma.FORMAT_XZ, check=chk, preset=params.get("level", 6))
     return data
 
 
@@ -470,10 +537,14 @@ def direct_results(basename: str, data: bytes):
     return out
 
 
-def run_history(read_archive, data, apath, hist, lookup):
+_TOK = __import__("re").compile(r"zq(\d{4})x")
+
+
+def run_history(read_archive, data, apath, hist, lookup, owner=None):
     """Execute the consumer history literally; append consumer events to STATE['ev']."""
     ev = STATE["ev"]
-    blank = {"m": 0, "fn": "", "path": "", "dg": 0, "canary": 0, "exc": ""}
+    owner = owner or {}
+    blank = {"m": 0, "fn": "", "path": "", "dg": 0, "canary": 0, "exc": "", "own": []}
 
     def project(r):
         STATE["mute"] += 1
@@ -484,8 +555,9 @@ def run_history(read_archive, data, apath, hist, lookup):
             m = lookup.get(path, 0)
             if m == 0:      # a result from INSIDE a member (e.g. a nested archive that was opened): that member
                 m = next((j for raw, j in lookup.items() if raw and path.startswith(raw + "!/")), 0)
+            own = sorted({owner[int(x)] for x in _TOK.findall(text) if int(x) in owner})
             return {"m": m, "fn": fn[:400], "path": path[:700], "dg": digest_id(r),
-                    "canary": 1 if CANARY in text else 0, "exc": ""}
+                    "canary": 1 if CANARY in text else 0, "exc": "", "own": own}
         finally:
             STATE["mute"] -= 1
     g = [read_archive(io.BytesIO(data), apath)]
@@ -553,10 +625,10 @@ def build_archive(fmt, members, variant, rng):
     if cor:
         cor = tuple(cor)
     if fmt == "zip":
-        return build_zip(members, variant.get("method", "deflated"), cor), "A.zip"
+        return build_zip(members, variant.get("method", "deflated"), cor, variant.get("pack")), "A.zip"
     if fmt == "tar":
         comp = variant.get("comp", "")
-        return build_tar(members, comp, cor), "A.tar" + ("." + comp if comp else "")
+        return build_tar(members, comp, cor, params=variant.get("pack")), "A.tar" + ("." + comp if comp else "")
     if fmt == "7z":
         return build_7z(members, variant.get("coder", "lzma2"), variant.get("layout", "solid"),
                         bool(variant.get("enc")), cor, rng), "A.7z"
@@ -607,11 +679,12 @@ def run_case(case, wroot, audit=True):
                 raw = f"{apath}!/{m['name']}"
                 lookup.setdefault(raw, j)
                 lookup.setdefault(str(Path(raw)), j)
+            owner = {t: j for j, m in enumerate(ms, start=1) for t in m.get("toks", [])}
             before = snapshot(cpaths)
             STATE.update(ev=[], roots=[], outside=[], err="")
             STATE["on"] = audit
             try:
-                run_history(ae.read_archive, data, apath, case["hist"], lookup)
+                run_history(ae.read_archive, data, apath, case["hist"], lookup, owner)
             finally:
                 STATE["on"] = False
             left = sorted(set(os.listdir(os.path.join(root, "tmp"))) - {os.path.basename(p) for p in cpaths
